@@ -29,10 +29,16 @@ MAY_THROW = {
 SIGNED = {"int", "long", "long long", "short", "signed char", "char", "int8_t"}
 
 
-def classify_extern(g):
+ARITH_SEQ = re.compile(r"(const )?std::(array<(float|double|long double|int|unsigned long|char), \d+>|basic_string<char.*>|basic_string_view<char.*>) ?&?$")
+
+
+def classify_extern(g, F=None):
     if g.get("nothrow") is True:
         return "noexcept", None
     qn = g.get("qname", g["name"])
+    if F is not None and re.match(r"std::operator(==|!=|<=|>=|<|>)$", qn) and g.get("params") \
+            and all(ARITH_SEQ.match(F.T(p["t"])) for p in g["params"]):
+        return "nothrow_in_practice", None    # element-wise comparison of arithmetic / character sequences cannot throw
     for pat, why in MAY_THROW.items():
         if re.search(pat, qn):
             return "may_throw", why
@@ -157,7 +163,7 @@ def run(chk):
                 if g is None or not g.get("extern") or g["loc"].startswith(frontend.INC):
                     continue
                 n_calls += 1
-                kind, why = classify_extern(g)
+                kind, why = classify_extern(g, F)
                 gq = g.get("qname", g["name"])
                 inst = "%s -> %s" % (f["name"], re.sub(r"<.*", "<..>", gq) + "::" + g["sname"] if "::" + g["sname"] not in gq else re.sub(r"<.*>", "<..>", gq))
                 # R1: table reads
